@@ -126,9 +126,11 @@ def check_diff(res):
         return "skip"
     cfg = res["cfg"]
     tight = res["tight"]
-    # default tolerance (rtol=atol=1e-5): an extra stop changes dopri5's steps; up to ~3 % seen on BH bins a few Myr after they start filling
-    # (C01 measures up to 8 % against the closed form there), so the default-tolerance clause is a coarse one and the tightened one decides
-    rel = 1e-5 if tight else 8e-2
+    # default tolerance (rtol=atol=1e-5): an extra stop inside the BH-formation window changes how dopri5 steps over the jumps of the
+    # right-hand side (the deposit bin switches as the tabulated BH relation zigzags): 21 % seen in one BH bin of a 3-bin layout (78 vs 99
+    # objects) while the class totals agree; per-bin the default-tolerance clause is therefore coarse (30 %), class totals are held to 0.5 %,
+    # and the tightened clause decides
+    rel = 1e-5 if tight else 3e-1
     absN = 1e-3 if tight else 0.5
     for i, row in enumerate(res["rows"]):
         if "single_error" in row or not row["conv"]:
@@ -155,6 +157,13 @@ def check_diff(res):
                 j = int(np.flatnonzero(bad | nan_mismatch)[0])
                 return {"clause": "the row for age T is the same whether T is requested alone or within any schedule", "row": i, "age": cfg["tout"][i],
                         "attr": key, "bin": j, "multi": repr(float(a[j])), "single": repr(float(b[j])), "tight": tight}
+        if not tight:
+            for key in m:
+                if key.startswith("Nr") and len(m[key]):
+                    ta, tb = float(np.nansum(m[key])), float(np.nansum(s[key]))
+                    if abs(ta - tb) > 5e-3 * max(abs(tb), 1.0) + 0.5 * len(m[key]):
+                        return {"clause": "the row for age T is the same whether T is requested alone or within any schedule (class total)",
+                                "row": i, "age": cfg["tout"][i], "attr": key, "multi": repr(ta), "single": repr(tb), "tight": tight}
         if cfg["tout"][i] == 0.0:
             if any(np.any(np.array(m[k]) != 0) for k in m if k.startswith(("Nr", "Mr"))):
                 return {"clause": "age 0 returns no remnants", "row": i}
@@ -176,7 +185,7 @@ def make_jobs(ctx, n):
             tms = None
         cfg["tout"] = gen_schedule(ctx.rng, tms)
         if kind == "escape":
-            sc = cfg["N0"] if cfg["kw"]["esc_norm"] == "N" else cfg["N0"] * gen.imf_mean_mass(cfg["m_breaks"], cfg["a_slopes"])
+            sc = cfg["N0"] if cfg["kw"]["esc_norm"] == "N" else cfg["N0"] * gen.imf_mass_per_star_below(cfg["m_breaks"], cfg["a_slopes"])
             cfg["esc_rate"] = -ctx.rng.uniform(0.05, 0.4) * sc / max(cfg["tout"])
         if kind in ("eject", "kicks"):
             cfg["kw"]["BH_ret_dyn"] = ctx.rng.choice([0.5, 0.2, 0.9])
